@@ -40,7 +40,17 @@ fn write_tree(root: &Path, files: &[(String, String)]) {
         std::fs::create_dir_all(path.parent().unwrap()).unwrap();
         std::fs::write(path, c).unwrap();
     }
+    // a note that is a symbolic link to a file that is no note (`linked.md` → `img/shared-target.txt`, same text): the note
+    // is rewritten in the library like any other (temporary file + rename replaces the link), what it pointed to is not
+    // touched
+    if files.iter().any(|(p, _)| p == LINK_NOTE) && files.iter().any(|(p, _)| p == LINK_TARGET) {
+        let _ = std::fs::remove_file(root.join(LINK_NOTE));
+        std::os::unix::fs::symlink(LINK_TARGET, root.join(LINK_NOTE)).unwrap();
+    }
 }
+
+const LINK_NOTE: &str = "linked.md";
+const LINK_TARGET: &str = "img/shared-target.txt";
 
 /// a directory tree of notes: nested directories, non-note files, names with spaces
 pub fn gen_tree(r: &mut Rng, with_md_md: bool) -> Vec<(String, String)> {
@@ -66,6 +76,12 @@ pub fn gen_tree(r: &mut Rng, with_md_md: bool) -> Vec<(String, String)> {
     if r.chance(1, 2) {
         files.push(("crlf note.md".to_string(), "# Crlf\r\n\r\nline one\r\n\r\n- item\r\n".to_string()));
         files.push(("d/nofinal.md".to_string(), "# No final newline\n\ntext".to_string()));
+    }
+    // every other tree: a note that is a symbolic link (see `write_tree`)
+    if r.chance(1, 2) {
+        let text = "#  Shared   note\n\n*  text  behind a link *\n\n-  item\n".to_string();
+        files.push((LINK_NOTE.to_string(), text.clone()));
+        files.push((LINK_TARGET.to_string(), text));
     }
     files.push(("notes.txt".to_string(), "not a note\n".to_string()));
     files.push(("d/readme.markdown".to_string(), "* keep   me  *\n".to_string()));
